@@ -206,6 +206,7 @@ func c16Render(e *twig.Engine, name string, ctxJSON []byte) (o c16Out, pan inter
 func runC16(cases string, res *Result) {
 	c16CompileAfterChange(res)
 	c16FilesOfTemplatesRegisteredUnderOtherNames(cases, res)
+	c16FilesThatArriveLater(cases, res)
 	twig.SetDebugWriter(io.Discard) // SetDebug(true) on one engine switches the package-wide logger on
 	dir := filepath.Join(filepath.Dir(cases), "files")
 	os.RemoveAll(dir)
